@@ -148,4 +148,34 @@ example : accepted { method := "POST", contentType := some "application/json", n
                               cap := some [{ actions := ["get"], secrets := [['*']] }], capHttps := some [] } } := by
   decide
 
+/-! ### T1: the status tables, extracted from the source on every run -/
+
+def statusNum : String → Nat
+  | "StatusOK" => 200 | "StatusNotModified" => 304 | "StatusBadRequest" => 400
+  | "StatusForbidden" => 403 | "StatusNotFound" => 404 | "StatusInternalServerError" => 500
+  | _ => 0
+
+/-- the sentinel a `Res` stands for, as the handler's error chain names it -/
+def errName : Res → String
+  | .denied => "db.ErrAccessDenied" | .notFound => "db.ErrNotFound"
+  | .notChanged => "api.ErrValueNotChanged" | _ => "err != nil"
+
+/-- `serveJSON` tests the handler's error in exactly this order with exactly these statuses, it
+answers with no other status than those of the model's gates and outcomes, and the model's
+`respOf` is that table; the client maps 404/403/304 back to the three sentinels. -/
+theorem status_tables :
+    Facts.serveErrorChain = [("db.ErrAccessDenied", "StatusForbidden"), ("db.ErrNotFound", "StatusNotFound"),
+      ("api.ErrValueNotChanged", "StatusNotModified"), ("err != nil", "StatusInternalServerError")] ∧
+    Facts.serveStatuses = ["StatusBadRequest", "StatusBadRequest", "StatusForbidden", "StatusInternalServerError",
+      "StatusBadRequest", "StatusForbidden", "StatusNotFound", "StatusNotModified", "StatusInternalServerError",
+      "StatusInternalServerError", "StatusOK"] ∧
+    Facts.clientStatusErrors = [("StatusNotFound", "api.ErrNotFound"), ("StatusForbidden", "api.ErrAccessDenied"),
+      ("StatusNotModified", "api.ErrValueNotChanged")] ∧
+    (∀ res ∈ [Res.denied, Res.notFound, Res.notChanged, Res.other],
+      some (respOf res).status = (Facts.serveErrorChain.lookup (errName res)).map statusNum) := by
+  refine ⟨by decide, by decide, by decide, ?_⟩
+  intro res hres
+  simp only [List.mem_cons, List.mem_nil_iff, or_false] at hres
+  rcases hres with h | h | h | h <;> subst h <;> decide
+
 end Setec.C08
